@@ -1141,6 +1141,13 @@ func (e *executor) executeGroupBy(ctx context.Context, index string, c *pql.Call
 	}
 	results, _ := other.([]GroupCount)
 
+	// A node executing its share of the shards for another node returns its
+	// groups as they are: offset and limit are applied once, to the merged
+	// result, by the node that received the query.
+	if opt.Remote {
+		return results, nil
+	}
+
 	// Apply offset.
 	if offset, hasOffset, err := c.UintArg("offset"); err != nil {
 		return nil, err
